@@ -565,7 +565,10 @@ pub fn run_faults<W: Write>(out: &mut W, seed: u64, n: usize, opts: &HashMap<Str
         for k in ks {
             // a failing content write: half of the time part of the file still gets through (a short write)
             let size = match (trace.get(k), trace.get(k).and_then(|(_, p)| after.get(p))) { (Some((kind, _)), Some(Entry::File(_, c))) if kind == "write" => c.len(), _ => 0 };
-            let limit: u64 = if size >= 2 && rng.chance(50) { (1 + rng.below(size - 1)) as u64 } else { 0 };
+            // (a path that is written more than once in the run — a quilt backup taken twice for one file — has
+            // another length at each write: only the final one is known, so such a write fails completely)
+            let written_once = trace.get(k).map(|(_, p)| trace.iter().filter(|(kind, q)| kind == "write" && q == p).count() == 1).unwrap_or(false);
+            let limit: u64 = if size >= 2 && written_once && rng.chance(50) { (1 + rng.below(size - 1)) as u64 } else { 0 };
             crate::watch::begin(format!("F|{}|{}|{}|{}", id, render_tree(&ws.tree), if inv.is_empty() { "-".to_string() } else { inv.join(" ") }, k));
             let (res, _, _, _) = run_fault_case2(&ws.tree, &inv, Some(k), limit);
             crate::watch::end();
